@@ -377,8 +377,19 @@ func (w *World) CheckOrdering(o *Obs) []Violation {
 	}
 	// processors, per component and callback kind
 	seqs := map[string][]participant{}
+	other := map[string][]participant{} // instantiation-aware callbacks: contract order only
 	for _, e := range evs {
-		if e.Kind != "before" && e.Kind != "after" {
+		switch e.Kind {
+		case "before", "after":
+		case "afterInst", "props", "beforeInst", "early":
+			p, n := procOf(e.Subj)
+			if w.instByName(n) != "" {
+				if _, ok := procs[p]; ok {
+					other[e.Kind+" "+n] = append(other[e.Kind+" "+n], procs[p])
+				}
+			}
+			continue
+		default:
 			continue
 		}
 		p, n := procOf(e.Subj)
@@ -386,6 +397,11 @@ func (w *World) CheckOrdering(o *Obs) []Violation {
 			continue // only components created after the processor list is complete
 		}
 		seqs[e.Kind+" "+n] = append(seqs[e.Kind+" "+n], procs[p])
+	}
+	for _, k := range sdl.SortedKeys(other) {
+		if msg := CheckContract(other[k]); msg != "" {
+			vs = append(vs, v("C12", "processor-order-violates-contract", strings.Fields(k)[0], fmt.Sprintf("%s callbacks for %s: %s; sequence %v", strings.Fields(k)[0], strings.Fields(k)[1], msg, ids(other[k]))))
+		}
 	}
 	for _, k := range sdl.SortedKeys(seqs) {
 		if msg := CheckContract(seqs[k]); msg != "" {
